@@ -217,7 +217,7 @@ def run_bounded(prop, tier, seed):
     return ctx
 
 
-HISTORY_PROPS = ("C03", "C08", "C09", "C10", "C11")
+HISTORY_PROPS = ("C03", "C04", "C08", "C09", "C10", "C11")
 
 
 def finding_matches(k, prop, oblig=None, carrier=None, clause=None, input=None):
